@@ -178,7 +178,7 @@ func c08RollingUpdateGuards(r *Run) {
 // c08PausedPromotion: paths of the promotion decision that promote by elapsed time carry paused=false.
 func c08PausedPromotion(r *Run) {
 	site := findDecision(r, "C08.R2")
-	if site == nil || !assignRoles(r, "C08.R2", site) {
+	if site == nil || !assignRolesA(r, "C08.R2", site) {
 		return
 	}
 	fn := site.decision
